@@ -124,9 +124,16 @@ var fields = map[string]field{
 		b.WriteString(e.Request.Proto)
 	},
 	"$response_body_size": func(b *bytes.Buffer, e *Event) {
+		// like the request, the response is only set for HTTP log events
+		if e.Response == nil {
+			return
+		}
 		atoi(b, e.Response.ContentLength, 0)
 	},
 	"$response_status": func(b *bytes.Buffer, e *Event) {
+		if e.Response == nil {
+			return
+		}
 		atoi(b, int64(e.Response.StatusCode), 0)
 	},
 	"$response_time_ms": func(b *bytes.Buffer, e *Event) {
